@@ -18,6 +18,9 @@ O_INDEP = 'Key.sign::ensures.independent_implementation_accepts'
 O_DIGEST = 'Key.verify::ensures.accepts_independent_signature'
 O_REJ = 'Key.verify::raises.ValueError_on_{}'
 O_CHK = 'CHECK_SIGNATURE::ensures.same_verdict_as_verify'
+O_SEQ = 'Key.verify::ensures.verdict_independent_of_call_history'
+O_SEQ_SIGN = 'Key.sign::ensures.result_independent_of_call_history'
+O_SEQ_CHK = 'CHECK_SIGNATURE::ensures.verdict_independent_of_call_history'
 
 
 def expected_kind(curve: str, generic: bool) -> str:
@@ -39,6 +42,10 @@ def form_of(msg: bytes, form: str):
         return msg.hex()
     if form == '0xhex':
         return '0x' + msg.hex()
+    if form == 'HEX':            # a hex string is a hex string in either letter case (bytes.fromhex reads both)
+        return msg.hex().upper()
+    if form == '0xHEX':
+        return '0x' + msg.hex().upper()
     raise KeyError(form)
 
 
@@ -131,6 +138,10 @@ def eval_sign(case):
             v, info = verify_verdict(key, sig, form_of(msg, f2))
             if v != 'T':
                 bad.append(f'{kname} key, message form {f2}: {v} {info}')
+    if full:      # the signature argument is Union[str, bytes]: the same base58 text as bytes
+        v, info = verify_verdict(_pubkey(curve, pk), sig.encode(), msg)
+        if v != 'T':
+            bad.append(f'public key, signature passed as bytes: {v} {info}')
     out.append(_res(O_VERIFIES, not bad, f'Key.verify(sign(m), m) not True: {bad}', tag))
     # an independent implementation accepts it over the Tezos payload
     ind = SIG.verify(curve, pk, msg, raw)
@@ -253,8 +264,80 @@ def eval_external(case):
                  f'external {pk[:4]}')]
 
 
+# ------------------------------------------------------------------------- sequences of calls
+def eval_seq(case):
+    """One process, purpose-built key objects (NOT the cached ones), a fixed interleaving of sign / verify /
+    CHECK_SIGNATURE calls; every verdict must be the one the (key, signature, message) triple has on its own:
+    rejected-then-accepted, accepted-then-rejected, same signature under another key, generic after specific,
+    key object with and without the secret part, repeated calls."""
+    from pytezos.crypto.key import Key
+    curve, secret, secret2 = case['curve'], bytes.fromhex(case['secret']), bytes.fromhex(case['secret2'])
+    m1, m2 = bytes.fromhex(case['m1']), bytes.fromhex(case['m2'])
+    short = case.get('short', False)
+    tag = f'curve={curve} sequence'
+    out = []
+    try:
+        K = Key.from_encoded_key(CC.encoded_sk(curve, secret))
+        pk, pk2 = SIG.public_key(curve, secret), SIG.public_key(curve, secret2)
+        P, P2 = Key.from_encoded_key(B58.encode(curve + 'pk', pk)), Key.from_encoded_key(B58.encode(curve + 'pk', pk2))
+        s1 = K.sign(m1)
+        s2 = K.sign(m2) if not short else None
+        s1g = K.sign(m1, generic=True)
+        s1b = K.sign(m1) if not short else s1  # the same request again, after other requests on the same object
+    except Exception as e:  # noqa
+        return [_res(O_SAFE, False, f'sequence of Key.sign calls on one key object raised {CC.exc_text(e)}', tag)]
+    ok = True
+    info = []
+    for nm, sg, generic in (('first', s1, False), ('repeated after other requests', s1b, False), ('generic after specific', s1g, True)):
+        try:
+            kind, raw = B58.decode(sg)
+        except ValueError as e:
+            kind, raw = f'undecodable({e})', b''
+        if kind != expected_kind(curve, generic) or len(raw) != SIG_LEN(curve):
+            ok = False
+            info.append(f'{nm}: kind {kind}, {len(raw)} bytes')
+        else:
+            ind = SIG.verify(curve, pk, m1, raw)
+            if ind is False or (ind is None and raw != _bls_ref(secret, m1)):
+                ok = False
+                info.append(f'{nm}: not a signature of m1 for an independent implementation')
+    out.append(_res(O_SEQ_SIGN, ok, f'sign(m1), sign(m2), sign(m1, generic), sign(m1) on ONE key object: {info}', tag))
+    if not ok:
+        return out
+    if short:       # BLS quick tier (pairing budget)
+        steps = [(P, 'P', s1, m2, 'V', 'rejected first'), (P, 'P', s1, m1, 'T', 'accepted after a rejection of the same signature'),
+                 (P2, 'P2', s1, m1, 'V', 'another key after an acceptance')]
+    else:
+        steps = [(P, 'P', s1, m2, 'V', 'rejected first'), (P, 'P', s1, m1, 'T', 'accepted after a rejection of the same signature'),
+                 (P, 'P', s2, m1, 'V', 'other signature, rejected'), (P, 'P', s2, m2, 'T', 'accepted after a rejection of the same signature'),
+                 (P, 'P', s1, m1, 'T', 'accepted again'), (P, 'P', s1, m2, 'V', 'rejected after an acceptance of the same signature'),
+                 (P2, 'P2', s1, m1, 'V', 'another key after an acceptance'), (P, 'P', s1, m1, 'T', 'accepted after a rejection under another key'),
+                 (P2, 'P2', s1, m1, 'V', 'another key, again'),
+                 (P, 'P', s1g, m1, 'T', 'generic form'), (P, 'P', s1g, m2, 'V', 'generic form, other message'), (P, 'P', s1g, m1, 'T', 'generic form again'),
+                 (K, 'K(secret)', s1, m2, 'V', 'key object holding the secret, rejected first'), (K, 'K(secret)', s1, m1, 'T', 'then accepted'),
+                 (P, 'P', s1.encode(), m1.hex(), 'T', 'signature as bytes, message as hex string'), (P, 'P', s1.encode(), m2.hex(), 'V', 'same, other message')]
+    for i, (key, kn, sg, mm, want, why) in enumerate(steps):
+        v, vinfo = verify_verdict(key, sg, mm)
+        if v != want:
+            out.append(_res(O_SEQ, False, f'step {i} ({why}): {kn}.verify(signature of m1 or m2, message) -> {v} {vinfo}, on its own this triple gives {want}; '
+                                          f'steps so far {[(a[1], a[4]) for a in steps[:i + 1]]}', tag + f' {why}'))
+            return out
+    out.append(_res(O_SEQ, True))
+    pkb, pkb2 = B58.encode(curve + 'pk', pk), B58.encode(curve + 'pk', pk2)
+    csteps = [(pkb, s1, m2, 'F'), (pkb, s1, m1, 'T')] + ([] if short else [(pkb2, s1, m1, 'F'), (pkb, s1, m1, 'T'), (pkb, s1g, m1, 'T'), (pkb, s1g, m2, 'F')])
+    for i, (kk, sg, mm, want) in enumerate(csteps):
+        cs = check_signature_verdict(kk, sg, mm)
+        if cs != want:
+            out.append(_res(O_SEQ_CHK, False, f'CHECK_SIGNATURE step {i} -> {cs}, on its own this triple gives {want}', tag + f' chk step {i}'))
+            return out
+    out.append(_res(O_SEQ_CHK, True))
+    return out
+
+
 def eval_case(case):
     k = case['k']
+    if k == 'seq':
+        return eval_seq(case)
     if k == 'sign':
         return eval_sign(case)
     if k == 'reject':
@@ -319,10 +402,51 @@ def _bl_quick_group(secret, msg, generic, secrets, others, rich):
     return cases
 
 
+# P-256, recorded key: messages whose (deterministic, RFC 6979) signature has a LEADING ZERO BYTE in r resp. in s
+# (found by search: 1 signature in 128 has one) - the fixed-width 32-byte big-endian layout of r ‖ s matters only there
+P2_LEADING_ZERO = [b'p256 leading zero 233', b'p256 leading zero 43']
+
+
+def _sweep_msg(n):
+    return bytes((7 * i + n) % 256 for i in range(n))
+
+
+def widening_cases(thorough, seed):
+    """Inputs the first enumeration fixed too narrowly (audit of over-specific harness inputs)."""
+    chunks = []
+    # sequences of calls on the same / different key objects (BLS first: slowest)
+    for curve in ('BL', 'p2', 'sp', 'ed'):
+        secrets = CC.secrets_of(curve, 2, seed)
+        short = curve == 'BL' and not thorough
+        chunks.append([dict(k='seq', curve=curve, secret=secrets[0].hex(), secret2=secrets[1].hex(), m1=b'test'.hex(), m2=b'tesu'.hex(), short=short)])
+        if not short:
+            chunks.append([dict(k='seq', curve=curve, secret=secrets[1].hex(), secret2=secrets[0].hex(), m1=b''.hex(), m2=bytes(32).hex(), short=False)])
+    # BLS: a digest-sized message as an upper-case hex string (sign + one verification; pairing budget)
+    bl = CC.secrets_of('BL', 1, seed)[0]
+    chunks.append([dict(k='sign', form='HEX', full=False, curve='BL', secret=bl.hex(), msg=_sweep_msg(32).hex(), generic=False)])
+    if thorough:
+        chunks.append([dict(k='sign', form='bytes', full=False, curve='BL', secret=bl.hex(), msg=_sweep_msg(64).hex(), generic=True)])
+    for curve in ('p2', 'sp', 'ed'):
+        secrets = CC.secrets_of(curve, 4, seed)
+        # every message length 0..69 and around the Blake2b block (128) / 256: sign, verify, independent verifier, CHECK_SIGNATURE
+        lens = list(range(0, 70)) + [127, 128, 129, 255, 256, 257] + ([512, 4096] if thorough else [])
+        cases = [dict(k='sign', form=('bytes', 'hex', 'HEX')[n % 3], curve=curve, secret=secrets[3 if n % 2 else 0].hex(), msg=_sweep_msg(n).hex(),
+                      generic=bool((n // 3) % 2)) for n in lens]
+        for i in range(0, len(cases), 20):
+            chunks.append(cases[i:i + 20])
+        # upper-case hex strings, with and without 0x, for every key
+        up = [dict(k='sign', form=form, curve=curve, secret=sec.hex(), msg=m.hex(), generic=g)
+              for sec in secrets for m in (b'\xab', b'\xde\xad\xbe\xef' * 8, bytes(range(200, 256))) for g in (False, True) for form in ('HEX', '0xHEX')]
+        chunks.append(up)
+    chunks.append([dict(k='sign', form=form, curve='p2', secret=CC.secrets_of('p2', 1, seed)[0].hex(), msg=m.hex(), generic=g)
+                   for m in P2_LEADING_ZERO for g in (False, True) for form in ('bytes', 'hex')])
+    return chunks
+
+
 def enumerate_cases(tier: str, seed: int = 0):
     """-> list of chunks (each a list of elementary cases)."""
     thorough = tier == 'thorough'
-    chunks = [[c] for c in EXTERNAL]
+    chunks = widening_cases(thorough, seed) + [[c] for c in EXTERNAL]
     for curve in ('BL', 'p2', 'sp', 'ed'):      # slowest first (load balance of the ordered pool map)
         bl = curve == 'BL'
         nkeys = (2 if bl else 8) if thorough else (2 if bl else 4)
